@@ -10,6 +10,9 @@ import (
 	"io/fs"
 	"os"
 	"syscall"
+	"time"
+
+	"golang.org/x/telemetry/internal/verifh/shim/vsched"
 )
 
 const (
@@ -36,6 +39,10 @@ const (
 )
 
 var KindName = []string{"ok", "ENOENT", "EACCES", "ENOSPC", "EIO", "short"}
+
+// Yielding: every fault point is also a yield point of the deterministic
+// scheduler (file-system-call granularity for racing openers).
+var Yielding bool
 
 var (
 	plan  map[int]int // call index -> kind
@@ -71,6 +78,9 @@ func errOf(kind int, op, path string) error {
 
 // Point is one fault point: it returns the planned kind for this call.
 func Point(op string) int {
+	if Yielding {
+		vsched.Yield("fs-"+op, 0)
+	}
 	i := Calls
 	Calls++
 	Log = append(Log, op)
@@ -146,4 +156,160 @@ func (f *File) WriteAt(b []byte, off int64) (int, error) {
 		return 0, err
 	}
 	return f.File.WriteAt(b, off)
+}
+
+// Truncate is a fault point too (a refactoring of extend may use it).
+func (f *File) Truncate(size int64) error {
+	if err := PointErr("truncate", f.Name()); err != nil {
+		return err
+	}
+	return f.File.Truncate(size)
+}
+
+// ---- the rest of the os surface a refactoring may plausibly use ----
+type (
+	FileInfo  = os.FileInfo
+	FileMode  = os.FileMode
+	DirEntry  = os.DirEntry
+	PathError = os.PathError
+)
+
+const (
+	O_WRONLY      = os.O_WRONLY
+	O_APPEND      = os.O_APPEND
+	O_EXCL        = os.O_EXCL
+	O_TRUNC       = os.O_TRUNC
+	O_SYNC        = os.O_SYNC
+	ModePerm      = os.ModePerm
+	ModeDir       = os.ModeDir
+	DevNull       = os.DevNull
+	SEEK_SET      = 0
+	SEEK_CUR      = 1
+	SEEK_END      = 2
+	PathSeparator = os.PathSeparator
+)
+
+var (
+	ErrNotExist   = os.ErrNotExist
+	ErrExist      = os.ErrExist
+	ErrPermission = os.ErrPermission
+	ErrClosed     = os.ErrClosed
+	Stdout        = os.Stdout
+	Args          = os.Args
+)
+
+func IsNotExist(err error) bool         { return os.IsNotExist(err) }
+func IsExist(err error) bool            { return os.IsExist(err) }
+func IsPermission(err error) bool       { return os.IsPermission(err) }
+func Getpid() int                       { return os.Getpid() }
+func TempDir() string                   { return os.TempDir() }
+func Environ() []string                 { return os.Environ() }
+func LookupEnv(k string) (string, bool) { return os.LookupEnv(k) }
+func UserConfigDir() (string, error)    { return os.UserConfigDir() }
+func Executable() (string, error)       { return os.Executable() }
+
+func Open(name string) (*File, error) { return OpenFile(name, O_RDONLY, 0) }
+func Create(name string) (*File, error) {
+	return OpenFile(name, O_RDWR|O_CREATE|O_TRUNC, 0666)
+}
+func CreateTemp(dir, pattern string) (*File, error) {
+	if err := PointErr("createtemp", dir); err != nil {
+		return nil, err
+	}
+	f, err := os.CreateTemp(dir, pattern)
+	if err != nil {
+		return nil, err
+	}
+	return &File{f}, nil
+}
+func Stat(name string) (os.FileInfo, error) {
+	if err := PointErr("stat", name); err != nil {
+		return nil, err
+	}
+	return os.Stat(name)
+}
+func Lstat(name string) (os.FileInfo, error) {
+	if err := PointErr("lstat", name); err != nil {
+		return nil, err
+	}
+	return os.Lstat(name)
+}
+func Mkdir(path string, perm os.FileMode) error {
+	if err := PointErr("mkdir", path); err != nil {
+		return err
+	}
+	return os.Mkdir(path, perm)
+}
+func Remove(name string) error {
+	if err := PointErr("remove", name); err != nil {
+		return err
+	}
+	return os.Remove(name)
+}
+func RemoveAll(name string) error {
+	if err := PointErr("removeall", name); err != nil {
+		return err
+	}
+	return os.RemoveAll(name)
+}
+func Rename(a, b string) error {
+	if err := PointErr("rename", a); err != nil {
+		return err
+	}
+	return os.Rename(a, b)
+}
+func Link(a, b string) error {
+	if err := PointErr("link", a); err != nil {
+		return err
+	}
+	return os.Link(a, b)
+}
+func Symlink(a, b string) error {
+	if err := PointErr("symlink", a); err != nil {
+		return err
+	}
+	return os.Symlink(a, b)
+}
+func Truncate(name string, size int64) error {
+	if err := PointErr("truncate", name); err != nil {
+		return err
+	}
+	return os.Truncate(name, size)
+}
+func Chmod(name string, mode os.FileMode) error {
+	if err := PointErr("chmod", name); err != nil {
+		return err
+	}
+	return os.Chmod(name, mode)
+}
+func Chtimes(name string, a, m time.Time) error {
+	if err := PointErr("chtimes", name); err != nil {
+		return err
+	}
+	return os.Chtimes(name, a, m)
+}
+func ReadDir(name string) ([]os.DirEntry, error) {
+	if err := PointErr("readdir", name); err != nil {
+		return nil, err
+	}
+	return os.ReadDir(name)
+}
+func SameFile(a, b os.FileInfo) bool { return os.SameFile(a, b) }
+
+func (f *File) Write(b []byte) (int, error) {
+	k := Point("write")
+	if k == KShort {
+		n, _ := f.File.Write(b[:len(b)/2])
+		return n, &fs.PathError{Op: "write", Path: f.Name(), Err: io.ErrShortWrite}
+	}
+	if err := errOf(k, "write", f.Name()); err != nil {
+		return 0, err
+	}
+	return f.File.Write(b)
+}
+func (f *File) Sync() error {
+	if err := PointErr("sync", f.Name()); err != nil {
+		return err
+	}
+	return f.File.Sync()
 }
